@@ -14,6 +14,7 @@ import (
 type closureInfo struct {
 	fn       *ssa.Function
 	bindings []*val
+	mk       *ssa.MakeClosure // the instruction that built it (nil when unknown)
 }
 
 const maxInlineDepth = 4
@@ -91,15 +92,120 @@ func (fc *fnCtx) doCall(cs *callSite) *val {
 	case *ssa.MakeClosure:
 		cl := cs.fnv.closure
 		if cl != nil {
-			return fc.staticCall(cs, cl.fn, cl.bindings)
+			return fc.staticCallMk(cs, cl)
 		}
 	default:
 		if cs.fnv != nil && cs.fnv.closure != nil {
-			return fc.staticCall(cs, cs.fnv.closure.fn, cs.fnv.closure.bindings)
+			return fc.staticCallMk(cs, cs.fnv.closure)
+		}
+		if cl := fc.resolveCellClosure(cc.Value); cl != nil {
+			return fc.staticCallMk(cs, cl)
 		}
 	}
 	g.unmodelled["call:dynamic"]++
 	return fc.havocCall(cs, true)
+}
+
+// staticCallMk: a call of a known function literal; the context it is inlined into remembers the MakeClosure.
+func (fc *fnCtx) staticCallMk(cs *callSite, cl *closureInfo) *val {
+	save := fc.pendingMk
+	fc.pendingMk = cl.mk
+	r := fc.staticCall(cs, cl.fn, cl.bindings)
+	fc.pendingMk = save
+	return r
+}
+
+// resolveCellClosure: the called value is loaded from a variable cell (a local of this function, or a captured
+// variable of an enclosing function this literal was inlined from) that is assigned exactly once in the whole
+// function nest, and that assignment stores a function literal: the callee is that literal (`f := func..; g := func() { f() }`).
+func (fc *fnCtx) resolveCellClosure(v ssa.Value) *closureInfo {
+	ld, ok := v.(*ssa.UnOp)
+	if !ok || ld.Op != token.MUL {
+		return nil
+	}
+	ctx := fc
+	cell := ld.X
+	for depth := 0; depth < 6; depth++ {
+		fv, isFV := cell.(*ssa.FreeVar)
+		if !isFV {
+			break
+		}
+		mk := ctx.fromMk
+		if mk == nil {
+			return nil
+		}
+		idx := -1
+		for i, f := range ctx.fn.FreeVars {
+			if f == fv {
+				idx = i
+			}
+		}
+		if idx < 0 || idx >= len(mk.Bindings) {
+			return nil
+		}
+		// the context in which the literal was built
+		var pc *fnCtx
+		for c := ctx.parent; c != nil; c = c.parent {
+			if c.fn == mk.Parent() {
+				pc = c
+				break
+			}
+		}
+		if pc == nil {
+			return nil
+		}
+		cell, ctx = mk.Bindings[idx], pc
+	}
+	al, ok := cell.(*ssa.Alloc)
+	if !ok || al.Parent() != ctx.fn {
+		return nil
+	}
+	var stores []*ssa.Store
+	bad := false
+	var scan func(addr ssa.Value, depth int)
+	scan = func(addr ssa.Value, depth int) {
+		if depth > 6 || addr.Referrers() == nil {
+			bad = true
+			return
+		}
+		for _, r := range *addr.Referrers() {
+			switch x := r.(type) {
+			case *ssa.Store:
+				if x.Addr == addr {
+					stores = append(stores, x)
+				} else {
+					bad = true // the address itself is stored somewhere: it escapes
+				}
+			case *ssa.UnOp, *ssa.DebugRef:
+			case *ssa.MakeClosure:
+				fn := x.Fn.(*ssa.Function)
+				for i, b := range x.Bindings {
+					if b == addr && i < len(fn.FreeVars) {
+						scan(fn.FreeVars[i], depth+1)
+					}
+				}
+			default:
+				bad = true
+			}
+		}
+	}
+	scan(al, 0)
+	if bad || len(stores) != 1 {
+		return nil
+	}
+	mk2, ok := stores[0].Val.(*ssa.MakeClosure)
+	if !ok || mk2.Parent() != ctx.fn {
+		return nil
+	}
+	cl := &closureInfo{fn: mk2.Fn.(*ssa.Function), mk: mk2}
+	for _, b := range mk2.Bindings {
+		bv, ok := ctx.vals[b]
+		if !ok {
+			return nil
+		}
+		cl.bindings = append(cl.bindings, bv)
+	}
+	return cl
 }
 
 func (fc *fnCtx) staticCall(cs *callSite, callee *ssa.Function, bindings []*val) *val {
@@ -113,6 +219,11 @@ func (fc *fnCtx) staticCall(cs *callSite, callee *ssa.Function, bindings []*val)
 	}
 	if isSpecName(callee.Name()) {
 		return fc.pureCall(callee, cs.args, fc.curH, fc.curR)
+	}
+	if !g.lite {
+		if ev := fc.eventKeyOfCall(cs, callee.Name()); ev != "" {
+			fc.assertAtCall(ev, cs)
+		}
 	}
 	if g.lite {
 		ev := fc.eventKeyOfCall(cs, callee.Name())
@@ -279,7 +390,24 @@ func (fc *fnCtx) builtin(cs *callSite, b *ssa.Builtin) *val {
 			}
 			return &val{k: kInt, w: a.w, signed: a.signed, t: []string{fmt.Sprintf("(ite (%s %s %s) %s %s)", op, a.t[0], c.t[0], a.t[0], c.t[0])}}
 		}
-	case "delete", "print", "println", "close", "clear":
+	case "delete":
+		if !fc.mapDelete(cs) && !g.lite {
+			if _, ok := mapModelled(cs.common.Args[0].Type()); ok {
+				fc.havocHeap("delete", "", true)
+			}
+		}
+		return &val{k: kTuple}
+	case "clear":
+		if !g.lite {
+			if _, ok := mapModelled(cs.common.Args[0].Type()); ok && len(args[0].t) > 0 {
+				fc.curH["HIt"] = fmt.Sprintf("(store %s %s ((as const %s) 0))", fc.curH["HIt"], args[0].t[0], rowSort("Int"))
+				fc.nameHeaps()
+			} else if _, isMap := cs.common.Args[0].Type().Underlying().(*types.Map); !isMap {
+				fc.havocHeap("clear", "", true) // clear(slice): contents zeroed; not modelled precisely
+			}
+		}
+		return &val{k: kTuple}
+	case "print", "println", "close":
 		return &val{k: kTuple}
 	case "recover":
 		return g.zeroVal(cs.typ)
@@ -662,6 +790,9 @@ func (fc *fnCtx) inline(cs *callSite, callee *ssa.Function, bindings []*val) *va
 	g.inlineSeq++
 	ch := g.newFnCtx(callee, fmt.Sprintf("c%d_", g.inlineSeq), fc.depth+1, fc)
 	ch.entryReach, ch.entryHeap, ch.entryAC = fc.curR, fc.curH.clone(), fc.curAC
+	if fc.pendingMk != nil && fc.pendingMk.Fn == ssa.Value(callee) {
+		ch.fromMk = fc.pendingMk
+	}
 	for i, p := range callee.Params {
 		if i < len(cs.args) {
 			a := *cs.args[i]
@@ -795,7 +926,7 @@ func (fc *fnCtx) applyContract(cs *callSite, callee *ssa.Function, c *contract) 
 	if c.pure || (c.hasAssigns && len(c.assigns) == 0) {
 		// heap unchanged; the callee may still allocate
 	} else if c.hasAssigns {
-		keep := fmt.Sprintf("(< r %s)", oldAC)
+		keep := fmt.Sprintf("(and (< r %s) (not (= r 0)))", oldAC) // row 0 (nil) is no object: never preserved, never checked
 		for _, a := range c.assigns {
 			v, err := pre.term(a)
 			if err != nil {
@@ -866,10 +997,40 @@ func (fc *fnCtx) applyContract(cs *callSite, callee *ssa.Function, c *contract) 
 	return res
 }
 
+// assertAtCall: ghost assertions the top contract attaches to the call sites of event ev (value level only).
+func (fc *fnCtx) assertAtCall(ev string, cs *callSite) {
+	g := fc.g
+	if g.lite || !fc.lexicallyInTop() {
+		return
+	}
+	c := g.w.contractOf(fc.topCtx().fn)
+	if c == nil {
+		return
+	}
+	for _, a := range c.assertAts {
+		if a.event != ev {
+			continue
+		}
+		names := map[string]*val{}
+		for i, av := range cs.args {
+			names[fmt.Sprintf("arg%d", i)] = av
+		}
+		sc := fc.specCtxAt(names, fc.curH)
+		sc.prove = true
+		f, err := sc.boolExpr(a.cl.expr)
+		if err != nil {
+			fatalContract(fc.topCtx().fn, "assertat", a.cl.expr, err)
+		}
+		g.oblige(obligation{name: fmt.Sprintf("assertat:%s:%s", fnKeyQ(fc.topCtx().fn), labelOr(a.cl.label, a.cl.expr)), kind: "assert", guard: fc.curR, cond: f, pos: g.w.posString(cs.pos)})
+		a.seen = true
+	}
+}
+
 func (fc *fnCtx) invoke(cs *callSite) *val {
 	g := fc.g
 	recv := cs.fnv
 	m := cs.common.Method
+	fc.assertAtCall(fc.addrText(cs.common.Value)+"."+m.Name(), cs)
 	if g.lite {
 		res := fc.havocCall(cs, false)
 		fc.event(fc.addrText(cs.common.Value)+"."+m.Name(), res, cs.pos)
@@ -935,7 +1096,7 @@ func (fc *fnCtx) invoke(cs *callSite) *val {
 	}
 	oldH := fc.curH.clone()
 	if c.hasAssigns {
-		keep := fmt.Sprintf("(< r %s)", fc.curAC)
+		keep := fmt.Sprintf("(and (< r %s) (not (= r 0)))", fc.curAC)
 		for _, a := range c.assigns {
 			v, err := pre.term(a)
 			if err != nil {
@@ -1246,6 +1407,25 @@ func (fc *fnCtx) pureCall(fn *ssa.Function, args []*val, h heap, guard string) *
 	var outs []*val
 	for i := 0; i < res.Len(); i++ {
 		srt, k, w, ok := resultSort(res.At(i).Type())
+		if bt, isB := res.At(i).Type().Underlying().(*types.Basic); !ok && isB && bt.Info()&types.IsString != 0 {
+			// a string result: three uninterpreted components (object, offset, length) of the same arguments
+			name := fmt.Sprintf("%s_%d", base, i)
+			var ts []string
+			for _, c := range []struct{ sfx, srt string }{{"r", "Int"}, {"o", "(_ BitVec 64)"}, {"l", "(_ BitVec 64)"}} {
+				g.declFun(name+c.sfx, "("+strings.Join(sorts, " ")+") "+c.srt)
+				t := name + c.sfx
+				if len(terms) > 0 {
+					t = "(" + t + " " + strings.Join(terms, " ") + ")"
+				}
+				ts = append(ts, t)
+			}
+			sv := &val{k: kSlice, constLen: -1, ty: res.At(i).Type(), t: []string{ts[0], ts[1], ts[2], ts[2]}}
+			if g.inQuant == 0 {
+				g.assume(sliceWF(sv))
+			}
+			outs = append(outs, sv)
+			continue
+		}
 		if !ok {
 			g.unmodelled["pure-result:"+res.At(i).Type().String()]++
 			outs = append(outs, g.newVal("pure", res.At(i).Type()))
